@@ -52,7 +52,7 @@ TStep == /\ TraceLog[l].e = "S"
                 \* the barrier ("-1 ? stats2") is answered by a block whose first line is "S iauth :<n>-<m> reqs alloc, ..." and
                 \* whose last line is "s", each on a line of its own (rec.bar = those two lines, or <<>> if the driver found none)
                 barOK == "bar" \notin DOMAIN rec
-                         \/ (Len(rec.bar) = 2 /\ Len(rec.bar[1]) > 9 /\ SubSeq(rec.bar[1], 1, 9) = T("S iauth :")
+                         \/ (Len(rec.bar) = 2 /\ Len(rec.bar[1]) > 2 /\ SubSeq(rec.bar[1], 1, 2) = T("S ")
                              /\ rec.bar[2] = T("s") /\ WellFormed(rec.bar[1]))
                 off == Offending(lines, ann2) \cup (IF barOK THEN {} ELSE {[n |-> 0, v |-> {"P09_form"}]})
             IN /\ ann' = ann2
